@@ -366,6 +366,8 @@ def size_of(c):
 
 
 def run(ctx):
+    from checks import isolate
+    isolate.enter(ctx)
     if os.environ.get("VERIF_C14_PATCHED"):
         exe = stage_patched(os.environ["VERIF_C14_PATCHED"])
     else:
@@ -717,6 +719,8 @@ def run(ctx):
 
 
 def replay(ctx, path):
+    from checks import isolate
+    isolate.enter(ctx)
     obj = json.load(open(path))
     print(json.dumps(obj, indent=1, ensure_ascii=False))
     c = obj.get("failing_input") or obj.get("first_disagreeing_input")
